@@ -143,6 +143,13 @@ class GroupBCD(BaseSolver):
                 w_acc, Xw_acc, is_extrapolated = accelerator.extrapolate(w, Xw)
 
                 if is_extrapolated:  # avoid computing p_obj for un-extrapolated w, Xw
+                    # the extrapolated model fit drifts from X @ w_acc when the
+                    # extrapolation coefficients are large: recompute it from (w, Xw)
+                    diff = w_acc - w
+                    supp = np.flatnonzero(diff[:n_features])
+                    Xw_acc = Xw + X[:, supp] @ diff[supp]
+                    if self.fit_intercept:
+                        Xw_acc += diff[-1]
                     p_obj = datafit.value(y, w, Xw) + penalty.value(w)
                     p_obj_acc = datafit.value(y, w_acc, Xw_acc) + penalty.value(w_acc)
 
